@@ -4,8 +4,8 @@ use std::panic::{AssertUnwindSafe, catch_unwind};
 
 use srtla_protocol::*;
 
-use crate::util::*;
-use crate::{Component, Mon, Rng, Tier};
+use verif_harness::util::*;
+use verif_harness::{Component, Mon, Rng, Tier};
 
 #[derive(Default)]
 pub struct Codec;
@@ -376,4 +376,8 @@ impl Component for Codec {
             _ => "bad-op".into(),
         }
     }
+}
+
+fn main() {
+    verif_harness::run_main("codec", Box::new(Codec));
 }
